@@ -12,3 +12,4 @@ pub mod gen_prog;
 pub mod ast_sx;
 pub mod refrun;
 pub mod rowcol;
+pub mod builtins;
